@@ -248,7 +248,7 @@ def run_replay(o, cfg, repo, work, seed):
         env["VERIF_SEED"] = str(seed)
         env["CARGO_TARGET_DIR"] = os.path.join(scratch, "target")
         filt = rp.get("tests", {}).get(o["id"].split("/", 1)[1], rp.get("default_test", "verif_replay"))
-        cmd = ["cargo", "test", "--offline", "-p", rp["crate"], "--lib", "--release", filt, "--", "--nocapture", "--test-threads", "1"]
+        cmd = ["cargo", "test", "--offline", "-p", rp["crate"], "--lib", filt, "--", "--nocapture", "--test-threads", "1"]
         p = subprocess.run(cmd, cwd=scratch, env=env, capture_output=True, text=True, timeout=rp.get("timeout", 1500))
         out = p.stdout + "\n" + p.stderr
         found = "REPLAY-FAIL" in out or (p.returncode != 0 and "test result: FAILED" in out)
